@@ -24,6 +24,7 @@ type ActCase struct {
 	Dim     int          `json:"dim,omitempty"` // Softmax dimension
 	Up      prog.Program `json:"up"`
 	G       []float64    `json:"g,omitempty"`
+	Fan     int          `json:"fan,omitempty"` // consumers of the activation output (weightedRoot)
 }
 
 func init() {
@@ -318,7 +319,8 @@ func genC15(t *rapid.T) ActCase {
 		}
 		c.Up = g.P
 	}
-	c.G = prog.DrawValsMode(t, n, 7, "std")
+	c.G = drawWeights(t, n)
+	c.Fan = drawFan(t)
 	return c
 }
 
@@ -419,8 +421,7 @@ func checkC15(c ActCase) *Failure {
 	if err != nil {
 		return failf("%s.Forward rejected an input of shape %v: %v", c.Kind, lo.vals[xid].Shape, err)
 	}
-	gt := lib.MustNew(lo.y.Shape, c.G, false)
-	z, err := y.Mul(gt)
+	z, err := weightedRoot(y, lo.y.Shape, c.G, c.Fan)
 	if err != nil {
 		return failf("weighting the activation output failed: %v", err)
 	}
